@@ -128,6 +128,7 @@ class Run(object):
             self.failed = set()
             self.nth = {}
             self.after_reply = set()      # attempts that started after the creating command was answered
+            self.resolved_after_reply = {}
             self.pre_reply_S_events = False
             self.want = None          # None | 'ok' | 'err'
             self.f_track = {}
@@ -191,10 +192,13 @@ class Run(object):
                     self.attempted.add((dnum, self.nth[dnum]))
                     if self.reply:
                         self.after_reply.add((dnum, self.nth[dnum]))
-                elif kind == 'OK':
-                    self.ok.add((dnum, self.nth.get(dnum, 0)))
                 else:
-                    self.failed.add((dnum, self.nth.get(dnum, 0)))
+                    # the event resolves one upload to that directory (the oldest unresolved one; which does not matter)
+                    open_ = sorted(a for a in self.attempted - self.ok - self.failed if a[0] == dnum)
+                    which = open_[0] if open_ else (dnum, self.nth.get(dnum, 0))
+                    (self.ok if kind == 'OK' else self.failed).add(which)
+                    if self.reply:
+                        self.resolved_after_reply[dnum] = self.resolved_after_reply.get(dnum, 0) + 1
         # --- reference verdict for this step
         if self.want is None and self.reply and not self.pre_reply_S_events:
             if self.await_all:
@@ -215,7 +219,9 @@ class Run(object):
                 self.viol.append(('completed-before-reply', self.kind, 'create() fired before the creating command was answered: %r' % (self.log,)))
             if n and self.rec.kind == 'ok' and not self.ok:
                 self.viol.append(('completed-without-own-upload', mode, '%r' % (self.log,)))
-            still = self.after_reply - self.ok - self.failed
+            # (per directory: uploads announced after the reply minus resolutions reported after the reply)
+            still = set(a for a in self.after_reply - self.ok - self.failed
+                        if len([b for b in self.after_reply if b[0] == a[0]]) > self.resolved_after_reply.get(a[0], 0))
             if n == 1 and fired_before == 0 and self.rec.kind == 'ok' and self.await_all and still:
                 # whatever is made of the events that came before the reply: an upload that started after it is unresolved
                 self.viol.append(('completed-early', '%s/await-all/uploads-started-after-the-reply-outstanding' % self.kind,
@@ -298,6 +304,7 @@ def enabled(history, ndirs, retry=()):
     """events the reference environment can emit next"""
     status = {}
     tries = {}
+    open_ = {}
     reply = False
     dead = False
     for ev in history:
@@ -312,6 +319,11 @@ def enabled(history, ndirs, retry=()):
             status[(x, d)] = {'U': 'started', 'OK': 'done', 'FAIL': 'failed'}[k]
             if k == 'U':
                 tries[(x, d)] = tries.get((x, d), 0) + 1
+                open_[(x, d)] = open_.get((x, d), 0) + 1
+            else:
+                open_[(x, d)] = open_.get((x, d), 0) - 1
+                if open_[(x, d)] > 0:
+                    status[(x, d)] = 'started'          # another upload to that directory is still unresolved
     out = []
     if dead:
         return out
@@ -330,6 +342,9 @@ def enabled(history, ndirs, retry=()):
             elif st == 'started':
                 out.append(('OK', x, d))
                 out.append(('FAIL', x, d))
+                if x in retry and tries[(x, d)] < 2 and d == 1:
+                    # a second descriptor of the service (other replica / time period) goes to the same directory
+                    out.append(('U', x, d))
             elif st == 'failed' and x in retry and tries[(x, d)] < 2:
                 out.append(('U', x, d))         # Tor tries that directory again
             elif st == 'done' and x in retry and tries[(x, d)] < 2 and d == 1:
